@@ -610,11 +610,11 @@ fn components(prop: &str) -> J {
     let (real, sim): (Vec<&str>, Vec<&str>) = match prop {
         "C18" => (
             vec!["YamlDecoder::decode", "decode_loop", "detect_utf16_endianness", "encoding_rs (as shipped)", "std::io::Read::read_to_end (std default impl)", "Yaml::load_from_str -> scanner, parser, loader, scalar resolver"],
-            vec!["SimReader (io::Read: short reads, EINTR, hard error, early EOF)", "stored-byte fault injector", "SimTrap (callback decisions from the tape)", "step clock (decode_loop hook, reader calls)", "reference decoder (oracle only; std::str::from_utf8 / char::decode_utf16)"],
+            vec!["SimReader (io::Read: short reads, EINTR, hard error, early EOF, nested use of another YamlDecoder)", "stored-byte fault injector", "SimTrap (callback: per-call or constant policy; pushes, pops, clears, releases capacity, nested decode, breaks)", "counting global allocator (memory clock)", "step clock (decode_loop hook, reader calls)", "reference decoder (oracle only; std::str::from_utf8 / char::decode_utf16)"],
         ),
         _ => (
             vec!["Scanner", "Parser (state machine, peek/next/load)", "StrInput", "BufferedInput", "YamlLoader + Yaml/YamlOwned/MarkedYaml/MarkedYamlOwned (C01 loaders)", "arraydeque, hashlink (as shipped)"],
-            vec!["SimSource (char iterator with early EOF)", "Ticking<I> (step-clock wrapper, forwards every method)", "SimRing (exact-fill ring buffer, any capacity >= 8, push-back policy buggify)", "SimSlice (virtual buffer, any capacity)", "client call schedule", "step clock"],
+            vec!["SimSource (char iterator with early EOF and six size_hint answers)", "Ticking<I> (step-clock wrapper, forwards every method)", "SimRing (exact-fill ring buffer, any capacity >= 8, push-back policy buggify)", "SimSlice (virtual buffer, any capacity)", "SimRle (run-length stream of up to 5*2^30 characters with bulk skips)", "nested use of the library from inside a seam call", "counting global allocator (memory clock)", "client call schedule", "step clock"],
         ),
     };
     J::obj()
